@@ -361,3 +361,21 @@ Theorem no_failing_history_objects : forall (V : Type) (sem : mkey -> (fkey -> V
   result_after fkey fkeyb mkey mkeyb V sem is_cached_key s [] m.
 Proof. exact Lemmas.ObjectsHistory.no_failing_history_objects. Qed.
 Print Assumptions no_failing_history_objects.
+
+(* CHECK-THEN-FILL IN PLACE (what the schedule stream of the check looks for: threads released together in a
+   fresh interpreter, each doing a first use).  In the test/compute/store protocol of [interleaving_confluent]
+   the value is built privately and published by one store, and every schedule is right.  If instead the shared
+   table is filled in place behind an "is it empty?" test, there is a schedule in which a thread looks up a key
+   that IS in the source and does not find it; one thread alone, or one after the other, always finds it. *)
+Example nonatomic_fill_race_witness :
+  (let c := frun Lemmas.ObjectsHistory.two_words 2 2 [false; false; true; true] in
+   f1 c = FDone None /\ tfind 2 Lemmas.ObjectsHistory.two_words = Some 20%nat) /\
+  (let c := frun Lemmas.ObjectsHistory.two_words 2 2 [false; false; false; false; true; true] in
+   f0 c = FDone (Some 20%nat) /\ f1 c = FDone (Some 20%nat)) /\
+  (forall k, In k (map fst Lemmas.ObjectsHistory.two_words) ->
+   f0 (frun Lemmas.ObjectsHistory.two_words k k [false; false; false; false]) = FDone (tfind k Lemmas.ObjectsHistory.two_words)).
+Proof.
+  exact (conj Lemmas.ObjectsHistory.fill_race_loses
+          (conj Lemmas.ObjectsHistory.fill_sequential_ok Lemmas.ObjectsHistory.fill_single_thread_ok)).
+Qed.
+Print Assumptions nonatomic_fill_race_witness.
